@@ -283,6 +283,8 @@ func tolSeparated(x, y *val.Val) bool {
 	return true
 }
 
+var c18ForceLang bool
+
 func c18Pair(r *Run, x, y *val.Val, sameByConstruction bool) {
 	if !tolSeparated(x, y) {
 		r.Count("pair:within-tolerance(skipped)")
@@ -338,7 +340,7 @@ func c18Pair(r *Run, x, y *val.Val, sameByConstruction bool) {
 		}
 	}
 	// through the language: ==, set operations, map lookup
-	if r.Rng.Intn(4) == 0 || sameByConstruction {
+	if r.Rng.Intn(4) == 0 || sameByConstruction || c18ForceLang {
 		lang := evalBool("a == b", x, y)
 		if x.Type.Kind == types.KObj || x.Type.Kind == types.KMaybe {
 			lang = "" // no == overload for these at top level
@@ -386,6 +388,36 @@ func runC18(r *Run) {
 	for _, c := range corpus {
 		c18Pair(r, c[0], c[1], false)
 		r.Sample(fmt.Sprintf("%s vs %s", ValSx(c[0]), ValSx(c[1])))
+	}
+	// strings that spell an escape sequence against the character the escape denotes: distinct values whose quoted
+	// renderings differ only if the backslash itself is escaped
+	c18ForceLang = true
+	for _, p := range [][2]string{{"a\\nb", "a\nb"}, {"\\t", "\t"}, {"\\\"", "\""}, {"\\\\", "\\"}, {"\\x00", "\x00"}, {"\\u00e9", "\u00e9"}, {"\\xff", "\xff"},
+		{"\\U0001f600", "\U0001F600"}, {"\\r", "\r"}, {"\\a", "\a"}, {"\\u2028", "\u2028"}, {"'", "\\'"}, {"\\", "/"}, {"x\\", "x"}} {
+		a, b := val.Str(p[0]), val.Str(p[1])
+		c18Pair(r, a, b, false)
+		c18Pair(r, mkList(types.Str, a), mkList(types.Str, b), false)
+		c18Pair(r, mkMap(types.Str, types.Num, a, n(1)), mkMap(types.Str, types.Num, b, n(1)), false)
+		c18Pair(r, mkObj(types.Obj([]types.Field{{Name: "s", Val: types.Str}}), a), mkObj(types.Obj([]types.Field{{Name: "s", Val: types.Str}}), b), false)
+		c18Pair(r, val.Just(types.Str, a), val.Just(types.Str, b), false)
+		r.Count("pair:escape-spelling")
+	}
+	c18ForceLang = false
+	// host times denoting one instant in different locations (direct predicate only: the model's time values carry no
+	// location, see DESIGN.md section 8)
+	for _, sec := range []int64{0, 100, 1700000000} {
+		a := val.Time(time.Unix(sec, 0).UTC())
+		b := val.Time(time.Unix(sec, 0).In(time.FixedZone("X", 3600)))
+		r.Count("pair:host-times-other-zone")
+		eq := val.Equals(a, b)
+		same := a.String() == b.String() && a.Key() == b.Key() && evalBool("len(union([a], [b])) == 1", a, b) == "true" && evalBool("isset([a: 1], b)", a, b) == "true"
+		if evalBool("a == b", a, b) != fmt.Sprint(eq) {
+			r.Violate("language-eq", fmt.Sprintf("host times %v / %v", a, b), "a == b differs from val.Equals")
+		}
+		if eq != same {
+			r.Violate("host-times-equal-instant-different-zone", fmt.Sprintf("host times %v / %v", a, b),
+				fmt.Sprintf("== is %v; renderings %q / %q; keys %v / %v", eq, a.String(), b.String(), a.Key(), b.Key()))
+		}
 	}
 	// aliasing: one sub-value used twice renders like two copies
 	{
